@@ -10,8 +10,18 @@ Payloads
       Pr ::= (process name ((p type)*) (pre e*) (ceffs (ceff increase|decrease fluent value)*))
       Ev ::= (event name ((p type)*) (pre e*) (effs eff*))
       (at start|end|gstart|gend delay)      (iv T|F T|F (at ..) (at ..))       -- left-open right-open lower upper
-  (extern <corpus>:<name>)   a problem outside the wire format (hierarchical, multi-agent, scheduling, contingent, or
-                             using constructs the format lacks): checked against the oracle only.
+  (hp <kp> (tasks (name ((p type)*))*) (methods M*) (tn (vars (name type)*) (subtasks St*) (constraints e*)))
+      hierarchical problem: M ::= (method name ((p type)*) (task tname pname*) (pre e*) (subtasks St*) (constraints e*)),
+      St ::= (ident tname e*); a timing expression is (timing "kind|container|delay")
+  (cp <kp> (sensing (aname e*)*) (or (e*)*) (oneof (e*)*))
+      contingent problem: the sensing actions are among the actions of <kp>, `(aname e*)` lists their observed fluents
+  (sp <problem> (xmetrics ..) (flags ..) (vars (name type)*) (conds ((iv ..) e)*) (effs ((at ..) eff)*) (constraints Sc*)
+      (activities A*) (facts ..))
+      scheduling problem: Sc ::= (e (scope-e*)),
+      A ::= (activity name T|F ((p type)*) (dur lo hi) (conds ((iv ..) e)*) (effs ((at ..) eff)*) (constraints Sc*))
+  (map (types ..) (objects (o T)*) (env (ref default|_)*) (agents Ag*) (goals e*))
+      multi-agent problem: Ag ::= (agent name (fluents (ref default|_)*) (actions <action>*) (dactions D*) (public e*) (private e*))
+  (extern <corpus>:<name>)   a problem outside the wire formats (constructs the formats lack): checked against the oracle only.
 `facts` carries what the kind computation asks of walkers that other properties own: LinearChecker.get_fluents(e)[0]
 (C17) and the fluents of Simplifier.simplify(e) (C11), both taken from the REAL code for exactly this problem.
 """
@@ -41,7 +51,8 @@ from upx import enc_expr, enc_ty, q2s
 
 ID = "C10"
 GEN = ["Features"]
-CORR_NAME = "kindOf-vs-Problem.kind"
+EXTRA_PROPS = ["UPVerif.Props.C10Ext"]
+CORR_NAME = "kindOf-vs-problem.kind"
 RULE = ("problems over a small typed signature (types T>S,U; Boolean/int/real/object fluents, some with parameters of user, "
         "bool and bounded-int type) built from 'plain' material (positive atoms, numeric comparisons, constant assignments) "
         "into which 1-3 feature-bearing constructs are PLANTED at a random position: a not/or/implies/equals/exists/forall "
@@ -49,13 +60,37 @@ RULE = ("problems over a small typed signature (types T>S,U; Boolean/int/real/ob
         "forall, durative, event, timed), a goal, timed goal, trajectory constraint, (temporal) oversubscription goal, "
         "process or event precondition; conditional/forall/increase/decrease/continuous effects in every effect position; "
         "fluent-dependent assignments and durations with static and non-static fluents; undefined / partially defined "
-        "initial values; every metric kind; bounded types; parameter types; plus the bundled example problems that fit "
-        "the wire format (others are sent as `extern`, oracle only). Non-trivial = the real kind contains at least one "
-        "feature named in the property statement beyond fluent/typing features, or the case is an extern problem.")
+        "initial values; every metric kind; bounded types; parameter types. The same material is wrapped into problems of "
+        "the four subclasses with features planted in the positions only they have: HIERARCHICAL (an operator only in a "
+        "method precondition, in a static constraint of a method or of the initial task network, or inside a constraint that "
+        "also mentions time points; a user type only on a task parameter / method parameter / task-network variable; a numeric "
+        "fluent read only by a subtask argument and an action cost or duration; total / partial / temporal orderings incl. "
+        "redundant precedences, delays, non-precedence comparisons and disjunctions), CONTINGENT (sensing actions with observed "
+        "fluents, or / oneof / unknown initial constraints; a numeric fluent read only there and in a cost or duration), "
+        "SCHEDULING (activities with parameters, fluent-dependent durations, resource use, timed conditions and effects at "
+        "start / end / intermediate / external times, scoped constraints; base-chronicle variables, conditions, effects and "
+        "constraints; an operator only in a scope expression, a bounded type only in a resource, a subtype only on a variable, "
+        "a static fluent only in a duration or an increase) and MULTI-AGENT (environment and agent fluents, instantaneous and "
+        "durative actions, Dot expressions, an operator only in an agent's public / private goal). Plus the bundled example "
+        "problems of all five classes that fit the wire formats (others are sent as `extern`, oracle only). Non-trivial = "
+        "the real kind contains at least one feature named in the property statement beyond fluent/typing features, or the "
+        "case is an extern problem.")
 ASSUMPTIONS = [
-    "`uses typing` = a user type is the type of an object, a fluent, a fluent parameter, an action/process/event parameter or a "
-    "forall-effect variable; a type that occurs only as the type of a quantified variable inside an expression, or of a "
-    "method/task/task-network/scheduling variable, is not counted (the code does not count those either)",
+    "`uses typing` = a user type is the type of an object, a fluent, a fluent parameter, an action/process/event/activity "
+    "parameter, a forall-effect variable, a task or method parameter, a task-network variable or a variable of the base "
+    "chronicle of a scheduling problem; a type that occurs only as the type of a quantified variable inside an expression is "
+    "not counted (the code does not count those either)",
+    "hierarchical problems: method preconditions and ALL constraints of methods and of the initial task network (also those "
+    "that mention time points) are condition positions; subtask arguments are read positions; parameter KINDS "
+    "(BOOL/INT/REAL_ACTION_PARAMETERS) are demanded of actions only, not of tasks, methods or task-network variables",
+    "contingent problems: a sensing action is an instantaneous action; observed fluents and the expressions of or / oneof "
+    "initial constraints are read positions, not condition positions",
+    "scheduling problems: an activity is read as a durative action, the timed conditions / effects of the base chronicle as "
+    "timed goals / timed effects, constraints and their scope expressions as condition positions; the variables of the base "
+    "chronicle are parameters like the activities' own (the code already counts those)",
+    "multi-agent problems: environment and agent fluents, all agents' actions, agents' goals and shared goals are read as one "
+    "planning problem; a fluent is non-static when some agent's effect targets a fluent of that name; undefined initial values "
+    "are not checked for multi-agent problems (initial values are kept per agent through Dot expressions)",
     "`disjunctive condition` = an `or` or `implies` node (not `iff`), as in the feature's documentation",
     "INT_FLUENTS/REAL_FLUENTS are demanded for a declared numeric fluent that is read in a condition/effect/goal/metric "
     "position or not read at all; a numeric fluent whose only uses are inside durations or action costs is covered by the "
@@ -75,9 +110,14 @@ ASSUMPTIONS = [
 MODELLED = ["modelled by hand (tied by correspondence): _KindFactory (all update_* methods, finalize), "
             "Problem._kind_factory, Problem._get_static_and_unused_fluents, InitialStateMixin._fluents_with_undefined_values, "
             "domain_size, OperatorsExtractor, FreeVarsExtractor, the int/real/bool/user class computed by the TypeChecker",
+            "modelled by hand (tied by correspondence): HierarchicalProblem.kind and _get_static_and_unused_fluents, "
+            "AbstractTaskNetwork.temporal/non_temporal_constraints, total_order / partial_order, htn.ordering.ordering and "
+            "_build_total_order, AnyChecker; ContingentProblem.kind and _get_static_and_unused_fluents, the SensingAction branches "
+            "of the factory; SchedulingProblem.kind and _get_static_and_unused_fluents, all_conditions, all_effects; "
+            "MultiAgentProblem.kind and its _update_* helpers",
             "taken from the real code per case (not modelled): LinearChecker.get_fluents(e)[0], fluents of Simplifier.simplify(e)",
-            "oracle only (no model, no theorem): HierarchicalProblem.kind, SchedulingProblem.kind, ContingentProblem.kind, "
-            "MultiAgentProblem.kind"]
+            "harness only: the encoding of TIMING_EXP payloads as `kind|container|delay` strings; time points of scheduling "
+            "conditions / effects are sent without their container (never read by the kind computation)"]
 BUDGET_S = {"quick": 60, "thorough": 600}
 
 # ================================================================================================
@@ -115,6 +155,10 @@ class Positions:
         self.costs, self.final_exprs, self.sim_written, self.metrics, self.traj = [], [], [], [], []
         self.has_sim = self.timed_effects = self.timed_goals = False
         self.fluents, self.objects = [], []
+        # positions of the problem subclasses: expressions that are read without being conditions (subtask arguments, observed
+        # fluents, oneof/or initial constraints) and types attached to something that is not an action parameter (parameters of
+        # tasks and methods, variables of the initial task network)
+        self.extra_reads, self.type_uses = [], []
         self._collect()
 
     def _action(self, a, w):
@@ -128,6 +172,8 @@ class Positions:
             if a.simulated_effect is not None:
                 self.has_sim = True
                 self.sim_written += [f.fluent() for f in a.simulated_effect.fluents]
+            for of in getattr(a, "observed_fluents", []):
+                self.extra_reads.append((f"{w} observed fluent", of))
         elif isinstance(a, DurativeAction):
             self.durations.append((f"{w} duration", a.duration.lower, a.duration.upper))
             for iv, cl in a.conditions.items():
@@ -186,8 +232,12 @@ class Positions:
         if isinstance(pb, SchedulingProblem):
             for (_, c, _) in pb.all_conditions():
                 self.conditions.append(("scheduling condition", c))
-            for c, _ in pb.base_scoped_constraints:
+            for c, scope in pb.base_scoped_constraints:
                 self.conditions.append(("scheduling constraint", c))
+                for sc in scope:
+                    self.conditions.append(("scheduling constraint scope", sc))
+            for v in pb.base_variables:
+                self.params.append((f"scheduling variable {v.name}", v))
             self.timed_effects = len(pb.base_effects) > 0
             self.timed_goals = len(pb.base_conditions) > 0
             for t, e in pb.base_effects:
@@ -200,8 +250,10 @@ class Positions:
                 for t, el in act.effects.items():
                     for e in el:
                         self.effects.append((f"{w} effect at {t}", e))
-                for c, _ in act.scoped_constraints:
+                for c, scope in act.scoped_constraints:
                     self.conditions.append((w + " constraint", c))
+                    for sc in scope:
+                        self.conditions.append((w + " constraint scope", sc))
             return
         for a in pb.actions:
             self._action(a, f"action {a.name}")
@@ -235,13 +287,31 @@ class Positions:
             self.traj.append(tc)
             self.conditions.append(("trajectory constraint", tc))
         if isinstance(pb, HierarchicalProblem):
+            for t in pb.tasks:
+                for p in t.parameters:
+                    self.type_uses.append((f"task {t.name} parameter {p.name}", p.type))
             for m in pb.methods:
+                for p in m.parameters:
+                    self.type_uses.append((f"method {m.name} parameter {p.name}", p.type))
                 for c in m.preconditions:
                     self.conditions.append((f"method {m.name} precondition", c))
-                for c in m.non_temporal_constraints():
+                for c in m.constraints:
                     self.conditions.append((f"method {m.name} constraint", c))
-            for c in pb.task_network.non_temporal_constraints():
+                for st in m.subtasks:
+                    for a in st.parameters:
+                        self.extra_reads.append((f"method {m.name} subtask {st.identifier} argument", a))
+            for v in pb.task_network.variables:
+                self.type_uses.append((f"task network variable {v.name}", v.type))
+            for c in pb.task_network.constraints:
                 self.conditions.append(("task network constraint", c))
+            for st in pb.task_network.subtasks:
+                for a in st.parameters:
+                    self.extra_reads.append((f"task network subtask {st.identifier} argument", a))
+        from unified_planning.model.contingent import ContingentProblem
+        if isinstance(pb, ContingentProblem):
+            for cl in list(pb.or_constraints) + list(pb.oneof_constraints):
+                for c in cl:
+                    self.extra_reads.append(("initial constraint", c))
 
 
 def used_features(pb):
@@ -324,6 +394,10 @@ def used_features(pb):
         read_elsewhere.update(_fluents_of(e.fluent) + _fluents_of(e.value))
     for x in P.final_exprs:
         read_elsewhere.update(_fluents_of(x))
+    for _, x in P.extra_reads:
+        read_elsewhere.update(_fluents_of(x))
+    for w, t in P.type_uses:
+        use_type(t, w)
     in_dur_or_cost = set()
     for _, lo, hi in P.durations:
         in_dur_or_cost.update(_fluents_of(lo) + _fluents_of(hi))
@@ -462,10 +536,43 @@ class _FunTables(dict):
         return _AnyTable(name, self.ctx)
 
 
+def _mk_daction(d, ctx):
+    _, name, params, dur, conds, effs, ceffs, sim = d
+    act = DurativeAction(name, OrderedDict((pn, ctx.ty(pt)) for pn, pt in params), ctx.env)
+    lo, hi = ctx.expr(dur[1]), ctx.expr(dur[2])
+    act.set_closed_duration_interval(lo, hi)
+    for iv, c in conds[1:]:
+        act.add_condition(mk_interval(iv), ctx.expr(c))
+    for t, e in effs[1:]:
+        _add_eff(act, ctx, e, mk_timing(t))
+    for iv, ce in ceffs[1:]:
+        fn = act.add_increase_continuous_effect if ce[1] == "increase" else act.add_decrease_continuous_effect
+        fn(mk_interval(iv), ctx.expr(ce[2]), ctx.expr(ce[3]))
+    for s in sim[1:]:
+        act.set_simulated_effect(mk_timing(s[0]), SimulatedEffect([ctx.expr(f) for f in s[1:]], _dummy_sim))
+    return act
+
+
 def build(payload, with_facts=False):
-    """payload (kp …) -> real Problem (raises whatever the library raises on rejected input)"""
+    """payload -> real problem (raises whatever the library raises on rejected input)"""
+    h = payload[0]
+    if h == "kp":
+        return _build_kp(payload)[0]
+    if h == "hp":
+        return build_h(payload)
+    if h == "cp":
+        return build_c(payload)
+    if h == "sp":
+        return build_s(payload)
+    if h == "map":
+        return build_m(payload)
+    raise ValueError(h)
+
+
+def _build_kp(payload, env=None):
+    """payload (kp …) -> (real Problem, Ctx); in a fresh Environment unless one is given"""
     base = [([x[0]] if (isinstance(x, list) and x and x[0] == "traj") else x) for x in payload[1]]
-    ctx = upx.Ctx([(n, None if f == "_" else f) for n, f in upp.get(base, "types")])
+    ctx = XCtx([(n, None if f == "_" else f) for n, f in upp.get(base, "types")], env=env)
     ctx.fun_tables = _FunTables(ctx)
     P, ctx = upp.build_problem(base, ctx)
     for t in upp.get(payload[1], "traj"):
@@ -483,20 +590,7 @@ def build(payload, with_facts=False):
         if a.name in sims:
             a.set_simulated_effect(SimulatedEffect([ctx.expr(f) for f in sims[a.name]], _dummy_sim))
     for d in sec(payload, "dactions"):
-        _, name, params, dur, conds, effs, ceffs, sim = d
-        act = DurativeAction(name, OrderedDict((pn, ctx.ty(pt)) for pn, pt in params), ctx.env)
-        lo, hi = ctx.expr(dur[1]), ctx.expr(dur[2])
-        act.set_closed_duration_interval(lo, hi)
-        for iv, c in conds[1:]:
-            act.add_condition(mk_interval(iv), ctx.expr(c))
-        for t, e in effs[1:]:
-            _add_eff(act, ctx, e, mk_timing(t))
-        for iv, ce in ceffs[1:]:
-            fn = act.add_increase_continuous_effect if ce[1] == "increase" else act.add_decrease_continuous_effect
-            fn(mk_interval(iv), ctx.expr(ce[2]), ctx.expr(ce[3]))
-        for s in sim[1:]:
-            act.set_simulated_effect(mk_timing(s[0]), SimulatedEffect([ctx.expr(f) for f in s[1:]], _dummy_sim))
-        P.add_action(act)
+        P.add_action(_mk_daction(d, ctx))
     for pr in sec(payload, "processes"):
         _, name, params, pre, ceffs = pr
         proc = Process(name, OrderedDict((pn, ctx.ty(pt)) for pn, pt in params), ctx.env)
@@ -529,7 +623,7 @@ def build(payload, with_facts=False):
     if fl:
         P.discrete_time = fl[0] == "T"
         P.self_overlapping = fl[1] == "T"
-    return P
+    return P, ctx
 
 
 def enc_ceff(e):
@@ -545,15 +639,35 @@ def enc_eff(e):
 
 
 def enc(P):
-    """real Problem -> (kp …) without facts; raises NotFit/ValueError/KeyError when outside the wire format"""
-    if type(P) is not Problem:
-        raise NotFit(type(P).__name__)
+    """real problem -> payload without facts (kp / hp / cp / sp / map by class); raises NotFit/ValueError/KeyError when
+    outside the wire formats"""
+    from unified_planning.model.contingent import ContingentProblem
+    from unified_planning.model.htn import HierarchicalProblem
+    from unified_planning.model.multi_agent import MultiAgentProblem
+    from unified_planning.model.scheduling import SchedulingProblem
+    if type(P) is Problem:
+        return _enc_base(P)
+    if type(P) is HierarchicalProblem:
+        return enc_h(P)
+    if type(P) is ContingentProblem:
+        return enc_c(P)
+    if type(P) is SchedulingProblem:
+        return enc_s(P)
+    if type(P) is MultiAgentProblem:
+        return enc_m(P)
+    raise NotFit(type(P).__name__)
+
+
+def _enc_base(P, extra_types=(), extra_exprs=(), sensing=False):
+    """the `Problem` part of a real problem -> (kp …) without facts.  extra_types / extra_exprs: types and expressions of
+    a subclass whose user types must be declared too; sensing: SensingActions are encoded as instantaneous actions"""
+    from unified_planning.model.contingent import SensingAction
     inst = [a for a in P.actions if isinstance(a, InstantaneousAction)]
     dur = [a for a in P.actions if isinstance(a, DurativeAction)]
     if len(inst) + len(dur) != len(P.actions):
         raise NotFit("action class")
     for a in inst:
-        if type(a) is not InstantaneousAction:
+        if type(a) is not InstantaneousAction and not (sensing and type(a) is SensingAction):
             raise NotFit("action class")
     # the base problem with instantaneous actions only (shared encoder iterates P.actions)
     shadow = P.clone()
@@ -569,6 +683,8 @@ def enc(P):
     for m in base_metrics:
         shadow.add_quality_metric(m)
     base = upp.enc_problem(shadow)
+    if base[1] is None:
+        base[1] = "p"      # the name is not read by the kind computation
     # user types that the problem never registered (types of forall-effect variables) still need their father
     tsec = next(x for x in base if isinstance(x, list) and x and x[0] == "types")
     known = {n for n, _ in tsec[1:]}
@@ -592,6 +708,9 @@ def enc(P):
     exprs += [d for d in P.fluents_defaults.values() if d is not None]
     for _, prm in pos.params:
         add_type(prm.type)
+    for t in extra_types:
+        add_type(t)
+    exprs += list(extra_exprs)
     for x in exprs:
         for nd in _nodes(x):
             if nd.is_object_exp():
@@ -646,6 +765,9 @@ def _all_exprs(P):
     """every expression the kind computation may hand to LinearChecker (a superset), and every continuous-effect value"""
     pos = Positions(P)
     lin = [c for _, c in pos.conditions] + [e.condition for _, e in pos.effects] + pos.final_exprs + pos.costs
+    from unified_planning.model.htn import HierarchicalProblem
+    if isinstance(P, HierarchicalProblem):
+        lin += [c for m in P.methods for c in list(m.preconditions) + list(m.constraints)] + list(P.task_network.constraints)
     simp = [e.value for _, e in pos.effects if e.kind in (EffectKind.CONTINUOUS_INCREASE, EffectKind.CONTINUOUS_DECREASE)]
     return lin, simp
 
@@ -660,7 +782,7 @@ def facts(P):
         if ("l", e) in seen:
             continue
         seen.add(("l", e))
-        out.append(["lin", enc_expr(e), "T" if lc.get_fluents(e)[0] else "F"])
+        out.append(["lin", enc_x(e), "T" if lc.get_fluents(e)[0] else "F"])
     for e in simp:
         if ("s", e) in seen:
             continue
@@ -677,9 +799,424 @@ def facts(P):
 def with_facts(payload):
     """normal form of a kp payload: the payload is built, the REAL problem is encoded back (constructors may normalise what
     they are given, e.g. add_trajectory_constraint simplifies), and the facts are computed from the real code"""
-    p = [s for s in payload if not (isinstance(s, list) and s and s[0] == "facts")]
-    P = build(p)
-    return enc(P) + [facts(P)]
+    P = build(strip_facts(payload))
+    return add_facts(enc(P), P)
+
+
+def strip_facts(payload):
+    if payload[0] in ("hp", "cp"):
+        return [payload[0], strip_facts(payload[1])] + payload[2:]
+    return [s for s in payload if not (isinstance(s, list) and s and s[0] == "facts")]
+
+
+def add_facts(payload, P):
+    """payload without facts + the facts of the real problem P (multi-agent kinds ask nothing of the walkers)"""
+    if payload[0] in ("hp", "cp"):
+        return [payload[0], payload[1] + [facts(P)]] + payload[2:]
+    if payload[0] == "map":
+        return payload
+    return payload + [facts(P)]
+
+
+# ================================================================================================
+# 2b. the problem subclasses: wire format <-> real HierarchicalProblem / ContingentProblem / SchedulingProblem /
+#     MultiAgentProblem
+# ================================================================================================
+
+class XCtx(upx.Ctx):
+    """Ctx that also builds TIMING_EXP and PRESENT_EXP leaves: (timing "kind|container|delay"), (present name)"""
+
+    def expr(self, s):
+        if s[0] == "timing":
+            k, c, d = s[1].split("|")
+            return self.em.TimingExp(Timing(Fraction(d), up.model.timing.Timepoint(TP[k], container=(c or None))))
+        if s[0] == "present":
+            from unified_planning.model.presence import Presence
+            return self.em.PresentExp(Presence(s[1]))
+        return super().expr(s)
+
+
+def enc_x(e):
+    """enc_expr for expressions that may contain TIMING_EXP / PRESENT_EXP leaves (constraints of task networks and
+    chronicles)"""
+    t = e.node_type
+    if t == OK.TIMING_EXP:
+        tm = e.timing()
+        return ["timing", "%s|%s|%s" % (TP_INV[tm.timepoint.kind], tm.timepoint.container or "", q2s(Fraction(tm.delay)))]
+    if t == OK.PRESENT_EXP:
+        return ["present", e.presence().container]
+    if t in (OK.EXISTS, OK.FORALL):
+        return ["exists" if t == OK.EXISTS else "forall", [[v.name, enc_ty(v.type)] for v in e.variables()], enc_x(e.arg(0))]
+    if t in upx.OPS:
+        return [upx.OPS[t]] + [enc_x(a) for a in e.args]
+    return enc_expr(e)
+
+
+def enc_timing_nc(t):
+    """a Timing without its container (the kind computations never read it)"""
+    return ["at", TP_INV[t.timepoint.kind], q2s(Fraction(t.delay))]
+
+
+def enc_interval_nc(i):
+    return ["iv", "T" if i.is_left_open() else "F", "T" if i.is_right_open() else "F", enc_timing_nc(i.lower), enc_timing_nc(i.upper)]
+
+
+def mk_timing_in(s, container):
+    """(at kind delay) -> Timing relative to `container` (start / end of an activity) or global"""
+    kind = TP[s[1]]
+    c = container if kind in (TimepointKind.START, TimepointKind.END) else None
+    return Timing(Fraction(s[2]), up.model.timing.Timepoint(kind, container=c))
+
+
+def mk_interval_in(s, container):
+    return TimeInterval(mk_timing_in(s[3], container), mk_timing_in(s[4], container), s[1] == "T", s[2] == "T")
+
+
+def _params(ps):
+    return [[p.name, enc_ty(p.type)] for p in ps]
+
+
+# ---- hierarchical --------------------------------------------------------------------------------
+
+def enc_h(P):
+    def st(x):
+        return [x.identifier, x.task.name] + [enc_x(a) for a in x.parameters]
+    xt, xe = [], []
+    for t in P.tasks:
+        xt += [p.type for p in t.parameters]
+    for m in P.methods:
+        xt += [p.type for p in m.parameters]
+        xe += list(m.preconditions) + list(m.constraints) + [a for x in m.subtasks for a in x.parameters]
+    tn = P.task_network
+    xt += [v.type for v in tn.variables]
+    xe += list(tn.constraints) + [a for x in tn.subtasks for a in x.parameters]
+    kp = _enc_base(P, extra_types=xt, extra_exprs=xe)
+    tasks = [[t.name, _params(t.parameters)] for t in P.tasks]
+    methods = [["method", m.name, _params(m.parameters),
+                ["task", m.achieved_task.task.name] + [p.name for p in m.achieved_task.parameters],
+                ["pre"] + [enc_x(c) for c in m.preconditions], ["subtasks"] + [st(x) for x in m.subtasks],
+                ["constraints"] + [enc_x(c) for c in m.constraints]] for m in P.methods]
+    net = ["tn", ["vars"] + _params(tn.variables), ["subtasks"] + [st(x) for x in tn.subtasks],
+           ["constraints"] + [enc_x(c) for c in tn.constraints]]
+    return ["hp", kp, ["tasks"] + tasks, ["methods"] + methods, net]
+
+
+def build_h(payload):
+    from unified_planning.model.htn import HierarchicalProblem, Method, Task
+    _, kp, tasks, methods, net = payload
+    # Subtask, TaskNetwork and Method.add_subtask create their objects in the global environment
+    P0, ctx = _build_kp(kp, env=up.environment.get_environment())
+    H = HierarchicalProblem(P0.name, ctx.env)
+    Problem._clone_to(P0, H)
+    tk = {}
+    for name, ps in tasks[1:]:
+        tk[name] = H.add_task(Task(name, OrderedDict((pn, ctx.ty(pt)) for pn, pt in ps), ctx.env))
+
+    def target(name):
+        return tk[name] if name in tk else H.action(name)
+
+    def fill(net_obj, sts, cs):
+        for x in sts:
+            net_obj.add_subtask(target(x[1]), *[ctx.expr(a) for a in x[2:]], ident=x[0])
+        for c in cs:
+            net_obj.add_constraint(ctx.expr(c))
+    for m in methods[1:]:
+        _, name, ps, task, pre, sts, cs = m
+        M_ = Method(name, OrderedDict((pn, ctx.ty(pt)) for pn, pt in ps), ctx.env)
+        M_.set_task(tk[task[1]], *[M_.parameter(pn) for pn in task[2:]])
+        for c in pre[1:]:
+            M_.add_precondition(ctx.expr(c))
+        fill(M_, sts[1:], cs[1:])
+        H.add_method(M_)
+    _, vs, sts, cs = net
+    for vn, vt in vs[1:]:
+        H.task_network.add_variable(vn, ctx.ty(vt))
+    fill(H.task_network, sts[1:], cs[1:])
+    return H
+
+
+# ---- contingent ----------------------------------------------------------------------------------
+
+def enc_c(P):
+    from unified_planning.model.contingent import SensingAction
+    sens = [a for a in P.actions if isinstance(a, SensingAction)]
+    cons = [c for cl in list(P.or_constraints) + list(P.oneof_constraints) for c in cl]
+    kp = _enc_base(P, extra_exprs=[f for a in sens for f in a.observed_fluents] + cons, sensing=True)
+    return ["cp", kp, ["sensing"] + [[a.name] + [enc_expr(f) for f in a.observed_fluents] for a in sens],
+            ["or"] + [[enc_expr(c) for c in cl] for cl in P.or_constraints],
+            ["oneof"] + [[enc_expr(c) for c in cl] for cl in P.oneof_constraints]]
+
+
+def build_c(payload):
+    from unified_planning.model.contingent import ContingentProblem, SensingAction
+    _, kp, sensing, ors, ones = payload
+    P0, ctx = _build_kp(kp)
+    obs = {s[0]: s[1:] for s in sensing[1:]}
+    if len(obs) != len(sensing) - 1:
+        raise ValueError("duplicate sensing action")
+    repl = {}
+    for i, a in enumerate(P0._actions):
+        if a.name in obs:
+            if type(a) is not InstantaneousAction:
+                raise ValueError("sensing action must be instantaneous")
+            sa = SensingAction(a.name, OrderedDict((p.name, p.type) for p in a.parameters), ctx.env)
+            sa._preconditions = a._preconditions[:]
+            sa._effects = [e.clone() for e in a._effects]
+            sa._fluents_assigned = a._fluents_assigned.copy()
+            sa._fluents_inc_dec = a._fluents_inc_dec.copy()
+            sa._simulated_effect = a._simulated_effect
+            sa.add_observed_fluents([ctx.expr(f) for f in obs[a.name]])
+            P0._actions[i] = sa
+            repl[a.name] = sa
+    if len(repl) != len(obs):
+        raise ValueError("observed fluents of an unknown action")
+    for k, m in enumerate(P0._metrics):
+        if isinstance(m, M.MinimizeActionCosts):
+            P0._metrics[k] = M.MinimizeActionCosts({repl.get(a.name, a): c for a, c in m.costs.items()}, m.default, ctx.env)
+    C = ContingentProblem(P0.name, ctx.env)
+    Problem._clone_to(P0, C)
+    for cl in ors[1:]:
+        C.add_or_initial_constraint([ctx.expr(c) for c in cl])
+    for cl in ones[1:]:
+        C.add_oneof_initial_constraint([ctx.expr(c) for c in cl])
+    return C
+
+
+# ---- scheduling ----------------------------------------------------------------------------------
+
+def _enc_scoped(cs):
+    return [[enc_x(c), [enc_x(x) for x in scope]] for c, scope in cs]
+
+
+def _types_section(P, types, exprs):
+    """(types …) with fathers first: the problem's user types plus those of `types` and of the nodes of `exprs`"""
+    known, out = set(), []
+
+    def add_type(t):
+        if t.is_user_type() and t.name not in known:
+            if t.father is not None:
+                add_type(t.father)
+            known.add(t.name)
+            out.append([t.name, t.father.name if t.father is not None else "_"])
+    for t in list(P.user_types) + list(types):
+        add_type(t)
+    for x in exprs:
+        for nd in _nodes(x):
+            if nd.is_object_exp():
+                add_type(nd.object().type)
+            elif nd.is_parameter_exp():
+                add_type(nd.parameter().type)
+            elif nd.is_variable_exp():
+                add_type(nd.variable().type)
+            elif nd.is_exists() or nd.is_forall():
+                for v in nd.variables():
+                    add_type(v.type)
+            elif nd.is_fluent_exp():
+                add_type(nd.fluent().type)
+                for q in nd.fluent().signature:
+                    add_type(q.type)
+    return ["types"] + out
+
+
+def _enc_fluents(fluents, defaults):
+    return ["fluents"] + [[[f.name, enc_ty(f.type), [enc_ty(p.type) for p in f.signature]],
+                           "_" if defaults.get(f, None) is None else enc_expr(defaults[f])] for f in fluents]
+
+
+def enc_s(P):
+    pos = Positions(P)
+    exprs = [c for _, c in pos.conditions] + pos.final_exprs
+    types = [p.type for _, p in pos.params]
+    for _, e in pos.effects:
+        enc_eff(e)
+        exprs += [e.fluent, e.value, e.condition]
+        types += [v.type for v in e.forall]
+    for _, lo, hi in pos.durations:
+        exprs += [lo, hi]
+    for f, v in P.explicit_initial_values.items():
+        exprs += [f, v]
+    exprs += [d for d in P.fluents_defaults.values() if d is not None]
+    ms, xm = [], []
+    for m in P.quality_metrics:
+        if isinstance(m, M.MinimizeMakespan):
+            xm.append(["makespan"])
+        elif isinstance(m, M.TemporalOversubscription):
+            xm.append(["toversub", [[enc_interval_nc(iv), enc_expr(g), q2s(Fraction(w))] for (iv, g), w in m.goals.items()]])
+        elif isinstance(m, M.MinimizeSequentialPlanLength):
+            ms.append(["min-length"])
+        elif isinstance(m, (M.MinimizeExpressionOnFinalState, M.MaximizeExpressionOnFinalState)):
+            ms.append(["min-final" if isinstance(m, M.MinimizeExpressionOnFinalState) else "max-final", enc_expr(m.expression)])
+        elif isinstance(m, M.Oversubscription):
+            ms.append(["oversub", [[enc_expr(g), q2s(Fraction(w))] for g, w in m.goals.items()]])
+        else:
+            raise NotFit("metric of a scheduling problem")
+    base = ["problem", P.name or "s", _types_section(P, types, exprs), ["objects"] + [[o.name, o.type.name] for o in P.all_objects],
+            _enc_fluents(P.fluents, P.fluents_defaults),
+            ["init"] + [[enc_expr(f), enc_expr(v)] for f, v in P.explicit_initial_values.items()],
+            ["actions"], ["goals"], ["traj"], ["metrics"] + ms]
+    acts = []
+    for a in P.activities:
+        acts.append(["activity", a.name, "T" if a.optional else "F", _params(a.parameters),
+                     ["dur", enc_expr(a.duration.lower), enc_expr(a.duration.upper)],
+                     ["conds"] + [[enc_interval_nc(iv), enc_x(c)] for iv, cl in a.conditions.items() for c in cl],
+                     ["effs"] + [[enc_timing_nc(t), enc_eff(e)] for t, el in a.effects.items() for e in el],
+                     ["constraints"] + _enc_scoped(a.scoped_constraints)])
+    return ["sp", base, ["xmetrics"] + xm, ["flags", "T" if P.discrete_time else "F", "T" if P.self_overlapping else "F"],
+            ["vars"] + _params(P.base_variables),
+            ["conds"] + [[enc_interval_nc(iv), enc_x(c)] for iv, c in P.base_conditions],
+            ["effs"] + [[enc_timing_nc(t), enc_eff(e)] for t, e in P.base_effects],
+            ["constraints"] + _enc_scoped(P.base_scoped_constraints), ["activities"] + acts]
+
+
+def _add_chron_eff(ch, ctx, timing, e):
+    _, kind, f, v, c, vs = e
+    forall = tuple(ctx.var(n, t) for n, t in vs)
+    fn = {"assign": ch.add_effect, "increase": ch.add_increase_effect, "decrease": ch.add_decrease_effect}[kind]
+    fn(timing, ctx.expr(f), ctx.expr(v), ctx.expr(c), forall)
+
+
+def build_s(payload):
+    from unified_planning.model.scheduling import SchedulingProblem
+    base = payload[1]
+    # Activity and SchedulingProblem.add_variable create their objects in the global environment
+    ctx = XCtx([(n, None if f == "_" else f) for n, f in upp.get(base, "types")], env=up.environment.get_environment())
+    ctx.fun_tables = _FunTables(ctx)
+    P = SchedulingProblem(base[1], ctx.env)
+    if upp.get(base, "actions") or upp.get(base, "goals") or upp.get(base, "traj"):
+        raise ValueError("a scheduling problem has no actions, goals or trajectory constraints")
+    for n, t in upp.get(base, "objects"):
+        P.add_object(ctx.obj(n, t))
+    for ref, d in upp.get(base, "fluents"):
+        if d == "_":
+            P.add_fluent(ctx.fluent(ref))
+        else:
+            P.add_fluent(ctx.fluent(ref), default_initial_value=ctx.expr(d))
+    for f, v in upp.get(base, "init"):
+        P.set_initial_value(ctx.expr(f), ctx.expr(v))
+    for m in upp.get(base, "metrics") + sec(payload, "xmetrics"):
+        if m[0] == "min-length":
+            P.add_quality_metric(M.MinimizeSequentialPlanLength(ctx.env))
+        elif m[0] in ("min-final", "max-final"):
+            cls = M.MinimizeExpressionOnFinalState if m[0] == "min-final" else M.MaximizeExpressionOnFinalState
+            P.add_quality_metric(cls(ctx.expr(m[1]), ctx.env))
+        elif m[0] == "oversub":
+            P.add_quality_metric(M.Oversubscription({ctx.expr(g): Fraction(w) for g, w in m[1]}, ctx.env))
+        elif m[0] == "makespan":
+            P.add_quality_metric(M.MinimizeMakespan(ctx.env))
+        elif m[0] == "toversub":
+            P.add_quality_metric(M.TemporalOversubscription({(mk_interval(iv), ctx.expr(g)): Fraction(w) for iv, g, w in m[1]}, ctx.env))
+        else:
+            raise ValueError(m)
+    fl = sec(payload, "flags")
+    P.discrete_time = fl[0] == "T"
+    P.self_overlapping = fl[1] == "T"
+    for vn, vt in sec(payload, "vars"):
+        P.add_variable(vn, ctx.ty(vt))
+    for iv, c in sec(payload, "conds"):
+        P.add_condition(mk_interval_in(iv, None), ctx.expr(c))
+    for t, e in sec(payload, "effs"):
+        _add_chron_eff(P._base, ctx, mk_timing_in(t, None), e)
+    for c, scope in sec(payload, "constraints"):
+        P._base._add_constraint(ctx.expr(c), scope=[ctx.expr(x) for x in scope])
+    for a in sec(payload, "activities"):
+        _, name, opt, ps, dur, conds, effs, cons = a
+        act = P.add_activity(name, optional=(opt == "T"))
+        lo, hi = ctx.expr(dur[1]), ctx.expr(dur[2])
+        act.set_duration_bounds(lo, hi)
+        for pn, pt in ps:
+            if not pn.startswith(name + "."):
+                raise ValueError("activity parameter names are scoped by the activity name")
+            act.add_parameter(pn[len(name) + 1:], ctx.ty(pt))
+        for iv, c in conds[1:]:
+            act.add_condition(mk_interval_in(iv, name), ctx.expr(c))
+        for t, e in effs[1:]:
+            _add_chron_eff(act, ctx, mk_timing_in(t, name), e)
+        for c, scope in cons[1:]:
+            act._add_constraint(ctx.expr(c), scope=[ctx.expr(x) for x in scope])
+    return P
+
+
+# ---- multi-agent ---------------------------------------------------------------------------------
+
+def _enc_daction(a):
+    conds = [[enc_interval(iv), enc_expr(c)] for iv, cl in a.conditions.items() for c in cl]
+    effs = [[enc_timing(t), enc_eff(e)] for t, el in a.effects.items() for e in el]
+    ceffs = [[enc_interval(iv), enc_ceff(e)] for iv, el in a.continuous_effects.items() for e in el]
+    sim = [[enc_timing(t)] + [enc_expr(f) for f in se.fluents] for t, se in a.simulated_effects.items()]
+    return ["daction", a.name, _params(a.parameters), ["dur", enc_expr(a.duration.lower), enc_expr(a.duration.upper)],
+            ["conds"] + conds, ["effs"] + effs, ["ceffs"] + ceffs, ["sim"] + sim]
+
+
+def enc_m(P):
+    pos = Positions(P)
+    exprs = [c for _, c in pos.conditions]
+    types = [p.type for _, p in pos.params]
+    for _, e in pos.effects:
+        exprs += [e.fluent, e.value, e.condition]
+        types += [v.type for v in e.forall]
+    for _, lo, hi in pos.durations:
+        exprs += [lo, hi]
+    for f in pos.fluents:
+        types += [f.type] + [q.type for q in f.signature]
+    for holder in [P.ma_environment] + list(P.agents):
+        exprs += [d for d in holder.fluents_defaults.values() if d is not None]
+    ags = []
+    for ag in P.agents:
+        ia, da = [], []
+        for a in ag.actions:
+            if type(a) is InstantaneousAction:
+                if a.simulated_effect is not None:
+                    raise NotFit("simulated effect in an agent")
+                for e in a.effects:
+                    enc_eff(e)
+                ia.append(upp.enc_action(a))
+            elif type(a) is DurativeAction:
+                if a.simulated_effects:
+                    raise NotFit("simulated effect in an agent")
+                da.append(_enc_daction(a))
+            else:
+                raise NotFit("action class")
+        ags.append(["agent", ag.name, _enc_fluents(ag.fluents, ag.fluents_defaults), ["actions"] + ia, ["dactions"] + da,
+                    ["public"] + [enc_expr(g) for g in ag.public_goals], ["private"] + [enc_expr(g) for g in ag.private_goals]])
+    return ["map", _types_section(P, types, exprs), ["objects"] + [[o.name, o.type.name] for o in P.all_objects],
+            ["env"] + _enc_fluents(P.ma_environment.fluents, P.ma_environment.fluents_defaults)[1:],
+            ["agents"] + ags, ["goals"] + [enc_expr(g) for g in P.goals]]
+
+
+def build_m(payload):
+    from unified_planning.model.multi_agent import Agent, MultiAgentProblem
+    _, types, objects, env, agents, goals = payload
+    ctx = XCtx([(n, None if f == "_" else f) for n, f in types[1:]])
+    ctx.fun_tables = _FunTables(ctx)
+    P = MultiAgentProblem("ma", ctx.env)
+    for n, t in objects[1:]:
+        P.add_object(ctx.obj(n, t))
+    dv = lambda d: None if d == "_" else ctx.expr(d)
+    for ref, d in env[1:]:
+        P.ma_environment.add_fluent(ctx.fluent(ref), default_initial_value=dv(d))
+    for a in agents[1:]:
+        _, name, fls, acts, dacts, pub, priv = a
+        ag = Agent(name, P)
+        for ref, d in fls[1:]:
+            ag.add_fluent(ctx.fluent(ref), default_initial_value=dv(d))
+        for act in acts[1:]:
+            _, an, ps, pre, effs = act
+            A = InstantaneousAction(an, OrderedDict((pn, ctx.ty(pt)) for pn, pt in ps), ctx.env)
+            for c in pre[1:]:
+                A.add_precondition(ctx.expr(c))
+            for e in effs[1:]:
+                _add_eff(A, ctx, e)
+            ag.add_action(A)
+        for d in dacts[1:]:
+            ag.add_action(_mk_daction(d, ctx))
+        for g in pub[1:]:
+            ag.add_public_goal(ctx.expr(g))
+        for g in priv[1:]:
+            ag.add_private_goal(ctx.expr(g))
+        P.add_agent(ag)
+    for g in goals[1:]:
+        P.add_goal(ctx.expr(g))
+    return P
 
 
 # ---- extern problems -----------------------------------------------------------------------------
@@ -712,6 +1249,9 @@ def extern_problems():
         return _EXTERN_CACHE
     from unified_planning.test.examples import get_example_problems
     for n, tc in get_example_problems().items():
+        _EXTERN_CACHE["examples:" + n] = tc.problem
+    from unified_planning.test.examples.multi_agent import get_example_problems as get_ma_example_problems
+    for n, tc in get_ma_example_problems().items():
         _EXTERN_CACHE["examples:" + n] = tc.problem
     repo = os.path.dirname(os.path.dirname(os.path.abspath(up.__file__)))
     tcdir = os.path.join(repo, "up_test_cases")
@@ -1257,6 +1797,606 @@ class KGen:
         return [list(c) for c in product(*doms)]
 
 
+# ================================================================================================
+# 3b. generators for the problem subclasses
+# ================================================================================================
+
+def _tm(kind, container="", delay="0"):
+    return ["timing", f"{kind}|{container}|{delay}"]
+
+
+def _prec(a, b):
+    return ["lt", _tm("end", a), _tm("start", b)]
+
+
+class XGen(KGen):
+    """hierarchical / contingent / scheduling / multi-agent problems around KGen's material"""
+
+    # ---- shared pieces ---------------------------------------------------------------------
+    def xparams(self, prefix="p", kinds=("user",) * 6 + ("bool", "bint", "uint", "real"), n=None):
+        out = []
+        r = self.r
+        for j in range(r.choice([0, 1, 1, 2]) if n is None else n):
+            k = r.choice(kinds)
+            ty = {"user": lambda: U(r.choice(["T", "S", "S", "U"])), "bool": lambda: "bool",
+                  "bint": lambda: ["int", "0", "3"], "uint": lambda: r.choice([INT, ["int", "0", "_"]]),
+                  "real": lambda: r.choice([REAL, ["real", "0", "1"]])}[k]()
+            out.append([f"{prefix}{j}", ty])
+        return out
+
+    def arg_for(self, ty, params, fl, plant_fluent=False):
+        """an argument expression for a task / action parameter of type ty"""
+        r = self.r
+        if plant_fluent:
+            cands = [n for n in fl if POOL[n][1] == ty or (ty[0] in ("int", "real") and POOL[n][1][0] == ty[0])]
+            if cands:
+                return self.fexp(r.choice(cands), params)
+        if ty == "bool" or ty[0] == "user" or (ty[0] == "int" and ty[1] != "_" and ty[2] != "_"):
+            return self.term(ty, params, ())
+        if ty[0] == "int":
+            return ["i", str(r.choice([0, 1, 2]))]
+        return r.choice([["i", "1"], ["r", "1/2"]])
+
+    def static_atom(self, params):
+        """a Boolean expression without fluents over parameters and objects"""
+        r = self.r
+        bools = [p for p in params if p[1] == "bool"]
+        if bools and r.random() < 0.3:
+            p = r.choice(bools)
+            return ["p", p[0], p[1]]
+        users = [p for p in params if p[1][0] == "user"]
+        if users:
+            p = r.choice(users)
+            t = p[1]
+            other = self.term(t, [q for q in params if q != p], ())
+            return ["eq", ["p", p[0], t], other]
+        return ["le", ["i", str(r.choice([0, 1]))], ["i", "1"]]
+
+    def static_plain(self, params):
+        """feature-free static constraint (no equality, negation, …): a Boolean parameter or a numeric comparison"""
+        r = self.r
+        bools = [p for p in params if p[1] == "bool"]
+        if bools and r.random() < 0.5:
+            p = r.choice(bools)
+            return ["p", p[0], p[1]]
+        nums = [p for p in params if p[1][0] in ("int", "real")]
+        if nums:
+            p = r.choice(nums)
+            return [r.choice(["le", "lt"]), ["p", p[0], p[1]], ["i", str(r.choice([1, 2, 3]))]]
+        return ["lt", ["i", "0"], ["i", str(r.choice([1, 2]))]]
+
+    def static_featured(self, op, params):
+        """a static constraint whose feature-bearing operator is `op`"""
+        r = self.r
+        a, b = self.static_plain(params), self.static_plain(params)
+        users = [p for p in params if p[1][0] == "user"]
+        if op == "not":
+            return ["not", a]
+        if op == "or":
+            return ["or", a, b]
+        if op == "implies":
+            return ["implies", a, b]
+        if op == "iff":
+            return ["iff", a, b]
+        if op in ("eq-num", "ifun"):
+            return ["eq", ["i", "1"], ["i", str(r.choice([1, 2]))]]
+        if op == "eq-obj":
+            t = r.choice(["T", "S", "U"])
+            return ["eq", self.term(U(t), params, ()), self.term(U(t), params, ())]
+        if op in ("exists", "forall"):
+            t = r.choice(["T", "S", "U"])
+            v = ["v", "qs", U(t)]
+            body = ["eq", v, self.term(U(t), params, ())]
+            if r.random() < 0.3:
+                body = ["and", body, a]
+            return [op, [["qs", U(t)]], body]
+        inner = self.static_featured(r.choice(["not", "or", "implies", "eq-obj", "exists", "forall"]), params)
+        return ["and", a, ["and", b, inner]]
+
+    def temporal(self, ids, mode, params, op=None):
+        """temporal constraints over the subtask / activity identifiers `ids`"""
+        r = self.r
+        if len(ids) < 2 or mode == "none":
+            return []
+        chain = [_prec(ids[i], ids[i + 1]) for i in range(len(ids) - 1)]
+        if mode == "total":
+            return chain
+        if mode == "total-extra":      # a total order with a redundant precedence
+            return chain + ([_prec(ids[0], ids[-1])] if len(ids) > 2 else [])
+        if mode == "partial":
+            return chain[:-1] if len(ids) > 2 else []
+        if mode == "fork" and len(ids) > 2:
+            return [_prec(ids[0], ids[1]), _prec(ids[0], ids[2])]
+        if mode == "delay":
+            return chain[:-1] + [["lt", _tm("end", ids[-2], r.choice(["1", "3/2"])), _tm("start", ids[-1])]]
+        if mode == "le":
+            return chain[:-1] + [["le", _tm("end", ids[-2]), _tm("start", ids[-1])]]
+        if mode == "start-start":
+            return [["lt", _tm("start", ids[0]), _tm("start", ids[1])]] + chain[1:]
+        if mode == "after-break":      # a non-precedence first, precedences after it
+            return [["lt", _tm("end", ids[0], "1"), _tm("start", ids[1])]] + chain[1:]
+        if mode == "mixed":            # a feature-bearing operator inside a constraint that also mentions time
+            f = self.static_featured(op or r.choice(["not", "or", "eq-obj", "exists"]), params)
+            return chain[:-1] + [r.choice([["or", chain[-1], f], ["and", chain[-1], f], ["implies", f, chain[-1]]])]
+        if mode == "disj":
+            return [["or", _prec(ids[0], ids[1]), _prec(ids[1], ids[0])]]
+        return chain
+
+    TMODES = ["none", "total", "total", "total-extra", "partial", "fork", "delay", "le", "start-start", "after-break", "mixed", "disj"]
+
+    def base_kp(self):
+        return sanitize(self.problem())
+
+    # ---- hierarchical ----------------------------------------------------------------------
+    def hier(self):
+        r = self.r
+        kp = self.base_kp()
+        if kp is None:
+            return None
+        fl = [f[0][0] for f in upp.get(kp[1], "fluents")]
+        acts = [(a[1], a[2]) for a in upp.get(kp[1], "actions")] + [(d[1], d[2]) for d in sec(kp, "dactions")]
+        plants = [(r.choice(FEATURE_OPS), r.choice(["mpre", "mcons", "mtemp", "tncons", "tntemp"])) for _ in range(r.choice([0, 1, 1, 2]))]
+        tasks = []
+        for i in range(r.choice([1, 1, 2])):
+            tasks.append([f"tk{i}", self.xparams("u")])
+        targets = [(t[0], t[1]) for t in tasks] + acts
+
+        def subtasks(prefix, params, n):
+            out = []
+            for j in range(n):
+                name, ps = r.choice(targets)
+                out.append([f"{prefix}{j}", name] + [self.arg_for(pt, params, fl, plant_fluent=r.random() < 0.15) for _, pt in ps])
+            return out
+        methods = []
+        for i in range(r.choice([0, 1, 1, 2])):
+            t = r.choice(tasks)
+            params = [list(p) for p in t[1]] + self.xparams("w")
+            pre = [self.plain(fl, params) for _ in range(r.choice([0, 0, 1]))]
+            sts = subtasks("s", params, r.choice([0, 1, 2, 2, 3]))
+            ids = [s[0] for s in sts]
+            cons = [self.static_plain(params) for _ in range(1 if r.random() < 0.2 else 0)]
+            mode = r.choice(self.TMODES)
+            for op, pos in plants:
+                if i == 0 and pos == "mpre":
+                    pre.append(self.featured(op, fl, params))
+                elif i == 0 and pos == "mcons":
+                    cons.append(self.static_featured(op, params))
+                elif i == 0 and pos == "mtemp":
+                    cons += self.temporal(ids, "mixed", params, op if op != "ifun" else None)
+                    mode = "none"
+            cons += self.temporal(ids, mode, params)
+            methods.append(["method", f"m{i}", params, ["task", t[0]] + [p[0] for p in t[1]], ["pre"] + pre, ["subtasks"] + sts,
+                            ["constraints"] + cons])
+        tvars = self.xparams("v", n=r.choice([0, 0, 1, 2]))
+        sts = subtasks("t", tvars, r.choice([0, 1, 1, 2, 3]))
+        ids = [s[0] for s in sts]
+        cons = [self.static_plain(tvars) for _ in range(1 if r.random() < 0.15 else 0)]
+        mode = r.choice(self.TMODES)
+        for op, pos in plants:
+            if pos == "tncons":
+                cons.append(self.static_featured(op, tvars))
+            elif pos == "tntemp":
+                cons += self.temporal(ids, "mixed", tvars, op if op != "ifun" else None)
+                mode = "none"
+        cons += self.temporal(ids, mode, tvars)
+        return ["hp", kp, ["tasks"] + tasks, ["methods"] + methods, ["tn", ["vars"] + tvars, ["subtasks"] + sts, ["constraints"] + cons]]
+
+    def hier_special(self):
+        """a feature used in exactly one position of the hierarchical part of an otherwise featureless problem"""
+        r = self.r
+        b, x = POOL["b0"], POOL[r.choice(["x", "xb", "z"])]
+        set_b = ["eff", "assign", ["fl", b], ["b", "T"], TRUE, []]
+        acts = [["action", "a0", [], ["pre"], ["effs", set_b]]]
+        fluents = [[b, ["b", "F"]]]
+        metrics = []
+        t = U(r.choice(["S", "S", "U", "T"]))
+        where = r.choice(["task-param", "method-param", "tn-var", "subtask-arg-cost", "subtask-arg-duration", "tn-subtask-arg",
+                          "mpre-op", "mcons-op", "mtemp-op", "tncons-op", "tntemp-op"])
+        tparams, mparams, tvars, pre, mcons, tcons, dacts = [], [], [], [], [], [], []
+        op = r.choice(["not", "or", "implies", "eq-obj", "exists", "forall"])
+        ids = ["s0", "s1"]
+        msts = [["s0", "a0"], ["s1", "a0"]]
+        tsts = [["t0", "tk0"], ["t1", "a0"]]
+        objects = []
+        if where == "task-param":
+            tparams = [["u0", t]]
+        elif where == "method-param":
+            mparams = [["w0", t]]
+        elif where == "tn-var":
+            tvars = [["v0", t]]
+        elif where in ("subtask-arg-cost", "subtask-arg-duration", "tn-subtask-arg"):
+            fluents.append([x, ["i", "0"]])
+            tparams = [["u0", x[1]]]
+            if where == "subtask-arg-duration":
+                dacts = [["daction", "d0", [], ["dur", ["fl", x], ["fl", x]], ["conds"], ["effs", [["at", "end", "0"], set_b]], ["ceffs"], ["sim"]]]
+            else:
+                metrics = [["min-action-costs", [["a0", ["plus", ["fl", x], ["i", "1"]]]], "_"]]
+            if where == "tn-subtask-arg":
+                tsts = [["t0", "tk0", ["fl", x]], ["t1", "a0"]]
+            else:
+                msts = [["s0", "tk0", ["fl", x]], ["s1", "a0"]]
+        elif where == "mpre-op":
+            pre = [self.featured(op if op != "eq-obj" else "not", ["b0"], [])]
+        elif where == "mcons-op":
+            mparams = [["w0", "bool"], ["w1", "bool"]]
+            mcons = [self.static_featured(op, mparams)]
+        elif where == "mtemp-op":
+            mparams = [["w0", "bool"], ["w1", "bool"]]
+            mcons = self.temporal(ids, "mixed", mparams, op)
+        elif where == "tncons-op":
+            tvars = [["v0", "bool"], ["v1", "bool"]]
+            tcons = [self.static_featured(op, tvars)]
+        else:
+            tvars = [["v0", "bool"], ["v1", "bool"]]
+            tcons = self.temporal(["t0", "t1"], "mixed", tvars, op)
+        mp = [list(p) for p in tparams] + mparams
+        if tparams and where != "tn-subtask-arg":
+            tsts = [["t0", "a0"], ["t1", "a0"]]      # tk0 takes an argument: the initial network only uses the action
+        base = ["problem", "p", ["types"] + TYPES, ["objects"] + objects, ["fluents"] + fluents, ["init"], ["actions"] + acts,
+                ["goals"], ["traj"], ["metrics"] + metrics]
+        kp = ["kp", base, ["dactions"] + dacts, ["processes"], ["events"], ["teffs"], ["tgoals"], ["xmetrics"], ["flags", "F", "F"], ["sim"]]
+        methods = [["method", "m0", mp, ["task", "tk0"] + [p[0] for p in tparams], ["pre"] + pre, ["subtasks"] + msts, ["constraints"] + mcons]]
+        return ["hp", kp, ["tasks", ["tk0", tparams]], ["methods"] + methods, ["tn", ["vars"] + tvars, ["subtasks"] + tsts, ["constraints"] + tcons]]
+
+    # ---- contingent ------------------------------------------------------------------------
+    def cont(self):
+        r = self.r
+        kp = self.base_kp()
+        if kp is None:
+            return None
+        fl = [f[0][0] for f in upp.get(kp[1], "fluents")]
+        bools = [n for n in fl if n in BOOLS]
+        acts = upp.get(kp[1], "actions")
+        sensing = []
+        for a in acts:
+            if r.random() < 0.5 and bools:
+                k = r.random()
+                obs = [self.fexp(r.choice(bools), a[2]) for _ in range(r.choice([1, 1, 2]))]
+                nums = [n for n in fl if n in INTS + REALS]
+                if k < 0.15 and nums:
+                    obs.append(self.fexp(r.choice(nums), a[2]))
+                sensing.append([a[1]] + obs)
+        ors, ones = [], []
+        for _ in range(r.choice([0, 0, 1, 2])):
+            lits = [self.fexp(r.choice(bools), []) for _ in range(r.choice([2, 2, 3]))]
+            k = r.random()
+            if k < 0.3:
+                ors.append([["not", lits[0]], lits[0]])           # add_unknown_initial_constraint
+            elif k < 0.65:
+                ors.append(lits)
+            else:
+                ones.append(lits)
+        return ["cp", kp, ["sensing"] + sensing, ["or"] + ors, ["oneof"] + ones]
+
+    def cont_special(self):
+        """a numeric fluent read only in an action cost (or a duration) and in ONE position of the contingent part"""
+        r = self.r
+        b, x = POOL["b0"], POOL[r.choice(["x", "xb", "z", "zb"])]
+        fx = ["fl", x]
+        set_b = ["eff", "assign", ["fl", b], ["b", "T"], TRUE, []]
+        acts = [["action", "a0", [], ["pre"], ["effs", set_b]], ["action", "sense", [], ["pre"], ["effs"]]]
+        where = r.choice(["observed", "or", "oneof", "none"])
+        dacts, metrics = [], []
+        if r.random() < 0.5:
+            metrics = [["min-action-costs", [["a0", ["plus", fx, ["i", "1"]]]], "_"]]
+        else:
+            dacts = [["daction", "d0", [], ["dur", fx, fx], ["conds"], ["effs", [["at", "end", "0"], set_b]], ["ceffs"], ["sim"]]]
+        cmpx = ["le", fx, ["i", "2"]]
+        sensing = [["sense", ["fl", b]] + ([fx] if where == "observed" else [])]
+        ors = [[["fl", b], cmpx]] if where == "or" else []
+        ones = [[["fl", b], cmpx]] if where == "oneof" else []
+        base = ["problem", "p", ["types"] + TYPES, ["objects"], ["fluents", [b, ["b", "F"]], [x, ["i", "0"]]], ["init"], ["actions"] + acts,
+                ["goals"], ["traj"], ["metrics"] + metrics]
+        kp = ["kp", base, ["dactions"] + dacts, ["processes"], ["events"], ["teffs"], ["tgoals"], ["xmetrics"], ["flags", "F", "F"], ["sim"]]
+        return ["cp", kp, ["sensing"] + sensing, ["or"] + ors, ["oneof"] + ones]
+
+    # ---- scheduling ------------------------------------------------------------------------
+    RES = ["res", ["int", "0", "5"], []]
+
+    def sched(self):
+        r = self.r
+        fl = self.pick_fluents()
+        plants = [(r.choice(FEATURE_OPS), r.choice(["acond", "acons", "ascope", "aeffcond", "bcond", "bcons", "bscope", "beffcond", "oversub"]))
+                  for _ in range(r.choice([0, 1, 1, 2]))]
+        eff_plants = [(r.choice(["conditional", "forall", "increase", "decrease", "dependent", "dependent", "dependent-inc"]),
+                       r.choice(["act-start", "act-end", "act-inter", "act-ext", "base"])) for _ in range(r.choice([0, 1, 1, 2]))]
+        for kind, _ in eff_plants:
+            if kind.startswith("dependent"):
+                for n in r.choice([("x", "y"), ("z", "x"), ("xq", "xb"), ("b0", "b1"), ("at", "own")]):
+                    if n not in fl:
+                        fl.append(n)
+        use_res = r.random() < 0.5
+        nums = [n for n in fl if n in INTS + REALS]
+
+        def scoped(c, names, plant_scope=None):
+            k = r.random()
+            scope = []
+            if names and k < 0.35:
+                scope = [["present", r.choice(names)]]
+            if plant_scope is not None and names:
+                p = ["present", r.choice(names)]
+                scope = [{"not": ["not", p], "or": ["or", p, ["present", names[0]]], "implies": ["implies", p, ["present", names[0]]]}.get(plant_scope, ["not", p])]
+            return [c, scope]
+
+        def effs(where, params, n_plain):
+            out = []
+            for _ in range(n_plain):
+                e = self.eff(fl, params)
+                if e:
+                    out.append(e)
+            for kind, w in eff_plants:
+                if w != where:
+                    continue
+                e = None
+                if kind == "conditional":
+                    e = self.eff(fl, params, cond=self.plain(fl, params))
+                elif kind == "forall":
+                    e = self.eff(fl, params, forall=True)
+                elif kind in ("increase", "decrease"):
+                    e = self.eff(fl, params, kind=kind)
+                elif kind == "dependent":
+                    e = self.eff(fl, params, dependent=True)
+                else:
+                    e = self.eff(fl, params, kind=r.choice(["increase", "decrease"]), dependent=True)
+                if e:
+                    out.append(e)
+            return out
+        n_act = r.choice([1, 1, 2, 3])
+        names = [f"a{i}" for i in range(n_act)]
+        optional = [r.random() < 0.3 for _ in names]
+        opt_names = [n for n, o in zip(names, optional) if o]
+        acts = []
+        for i, name in enumerate(names):
+            ps = [[f"{name}.{pn}", pt] for pn, pt in self.xparams("q")]
+            k = r.random()
+            lo = hi = ["i", str(r.choice([0, 1, 2, 5]))]
+            if k < 0.15:
+                hi = ["i", "9"]
+            elif k < 0.2:
+                lo = hi = ["r", "5/2"]
+            elif k < 0.5 and nums:
+                g = self.fexp(r.choice(nums), ps)
+                lo = hi = g if r.random() < 0.5 else ["plus", g, ["i", "1"]]
+                if r.random() < 0.3:
+                    lo = ["i", "1"]
+            first = i == 0
+            conds, aeffs, cons = [], [], []
+            for w in ("start", "overall", "inter", "ext"):
+                if r.random() < (0.3 if w in ("start", "overall") else 0.1):
+                    conds.append([self.interval(w), self.plain(fl, ps)])
+            for w, where in (("start", "act-start"), ("end", "act-end"), ("inter", "act-inter"), ("ext", "act-ext")):
+                for e in effs(where if first else "-", ps, 1 if (w == "end" and r.random() < 0.5) else 0):
+                    aeffs.append([self.timing(w), e])
+            if use_res and r.random() < 0.7:      # Activity.uses(resource, amount)
+                amt = ["i", str(r.choice([1, 2]))]
+                aeffs.append([["at", "start", "0"], ["eff", "decrease", ["fl", self.RES], amt, TRUE, []]])
+                aeffs.append([["at", "end", "0"], ["eff", "increase", ["fl", self.RES], amt, TRUE, []]])
+            if r.random() < 0.3:
+                cons.append(scoped(["le", ["i", str(r.choice([0, 3]))], _tm("start", name)], [name] if optional[i] else []))
+            if r.random() < 0.2 and i > 0:
+                cons.append(scoped(["le", _tm("end", names[i - 1]), _tm("start", name)], opt_names))
+            for op, pos in plants:
+                if not first:
+                    continue
+                if pos == "acond":
+                    conds.append([self.interval(r.choice(["start", "overall", "inter"])), self.featured(op, fl, ps)])
+                elif pos == "acons":
+                    cons.append(scoped(self.static_featured(op, ps), opt_names))
+                elif pos == "ascope":
+                    cons.append(scoped(self.static_plain(ps), names, plant_scope=op))
+                elif pos == "aeffcond":
+                    e = self.eff(fl, ps, cond=self.featured(op, fl, ps))
+                    if e:
+                        aeffs.append([self.timing(r.choice(["start", "end"])), e])
+            acts.append(["activity", name, "T" if optional[i] else "F", ps, ["dur", lo, hi], ["conds"] + conds, ["effs"] + aeffs,
+                         ["constraints"] + cons])
+        bvars = self.xparams("bv", n=r.choice([0, 0, 0, 1, 2]))
+        bconds = [[self.interval("global"), self.plain(fl)] for _ in range(1 if r.random() < 0.15 else 0)]
+        beffs = [[self.timing("global"), e] for e in effs("base", [], 1 if r.random() < 0.15 else 0)]
+        bcons = [scoped(self.static_plain(bvars), opt_names) for _ in range(1 if r.random() < 0.2 else 0)]
+        metrics, xm = [], []
+        ov = []
+        for op, pos in plants:
+            if pos == "bcond":
+                bconds.append([self.interval("global"), self.featured(op, fl)])
+            elif pos == "bcons":
+                bcons.append(scoped(self.static_featured(op, bvars), opt_names))
+            elif pos == "bscope":
+                bcons.append(scoped(self.static_plain(bvars), names, plant_scope=op))
+            elif pos == "beffcond":
+                e = self.eff(fl, [], cond=self.featured(op, fl))
+                if e:
+                    beffs.append([self.timing("global"), e])
+            elif pos == "oversub":
+                ov.append([self.featured(op, fl), r.choice(["1", "5/2"])])
+        k = r.random()
+        if ov:
+            metrics.append(["oversub", ov])
+        elif k < 0.3:
+            xm.append(["makespan"])
+        elif k < 0.4 and nums:
+            g = self.fexp(r.choice(nums))
+            metrics.append([r.choice(["min-final", "max-final"]), r.choice([g, ["plus", g, ["i", "1"]], ["times", g, g]])])
+        elif k < 0.45:
+            xm.append(["toversub", [[self.interval("global"), self.plain(fl), "2"]]])
+        fluents, init = [], []
+        objects = ALL_OBJECTS if r.random() < 0.85 else r.choice([[], [["u1", "U"]], [["s1", "S"], ["u1", "U"]]])
+        for n in fl:
+            ref = POOL[n]
+            k = r.random()
+            if k < 0.8:
+                fluents.append([ref, self.const_for(ref)])
+            else:
+                fluents.append([ref, "_"])
+                grounds = self.ground_args(ref, objects)
+                if r.random() < 0.5:
+                    if r.random() < 0.35 and len(grounds) > 1:
+                        grounds = grounds[:-1]
+                    for args in grounds:
+                        init.append([["fl", ref] + args, self.const_for(ref)])
+        if use_res:
+            fluents.append([self.RES, ["i", "5"]])
+        base = ["problem", "s", ["types"] + TYPES, ["objects"] + objects, ["fluents"] + fluents, ["init"] + init, ["actions"], ["goals"],
+                ["traj"], ["metrics"] + metrics]
+        return ["sp", base, ["xmetrics"] + xm, ["flags", "F" if r.random() < 0.15 else "T", "T" if r.random() < 0.1 else "F"],
+                ["vars"] + bvars, ["conds"] + bconds, ["effs"] + beffs, ["constraints"] + bcons, ["activities"] + acts]
+
+    def sched_special(self):
+        """one feature in one position of an otherwise featureless scheduling problem"""
+        r = self.r
+        b = POOL["b0"]
+        fluents = [[b, ["b", "F"]]]
+        set_b = ["eff", "assign", ["fl", b], ["b", "T"], TRUE, []]
+        where = r.choice(["resource-bounds", "static-duration", "dynamic-duration", "static-increase", "dynamic-increase", "var-subtype",
+                          "var-bool", "var-int", "activity-param", "scope-not", "base-cons-op", "act-cons-op", "base-cond-op",
+                          "act-effcond-op"])
+        t = U(r.choice(["S", "U", "T"]))
+        op = r.choice(["not", "or", "implies", "eq-obj", "exists", "forall"])
+        bvars, bconds, beffs, bcons = [], [], [], []
+        ps, dur, conds, effs, cons = [], ["dur", ["i", "2"], ["i", "2"]], [], [[["at", "end", "0"], set_b]], []
+        d, w = POOL["xb"], POOL["y"]
+        opt = "F"
+        if where == "resource-bounds":
+            fluents.append([self.RES, ["i", "5"]])
+        elif where in ("static-duration", "dynamic-duration"):
+            fluents.append([d, ["i", "2"]])
+            dur = ["dur", ["fl", d], ["fl", d] if r.random() < 0.5 else ["plus", ["fl", d], ["i", "1"]]]
+            if where == "dynamic-duration":
+                beffs = [[["at", "gstart", "3"], ["eff", "assign", ["fl", d], ["i", "1"], TRUE, []]]]
+        elif where in ("static-increase", "dynamic-increase"):
+            fluents += [[d, ["i", "2"]], [w, ["i", "0"]]]
+            effs.append([["at", "end", "0"], ["eff", "increase", ["fl", w], ["fl", d] if where == "static-increase" else ["fl", w], TRUE, []]])
+        elif where == "var-subtype":
+            bvars = [["bv0", t]]
+        elif where == "var-bool":
+            bvars = [["bv0", "bool"]]
+        elif where == "var-int":
+            bvars = [["bv0", r.choice([INT, ["int", "0", "3"], REAL])]]
+        elif where == "activity-param":
+            ps = [["a0.q0", r.choice([t, "bool", INT, ["int", "0", "3"]])]]
+        elif where == "scope-not":
+            opt = "T"
+            cons = [[["le", ["i", "3"], _tm("start", "a0")], [["not", ["present", "a0"]]]]]
+        elif where == "base-cons-op":
+            bvars = [["bv0", "bool"], ["bv1", "bool"]]
+            bcons = [[self.static_featured(op, bvars), []]]
+        elif where == "act-cons-op":
+            ps = [["a0.q0", "bool"], ["a0.q1", "bool"]]
+            cons = [[self.static_featured(op, ps), []]]
+        elif where == "base-cond-op":
+            bconds = [[self.interval("global"), self.featured(op if op != "eq-obj" else "not", ["b0"])]]
+        else:
+            effs = [[["at", "end", "0"], ["eff", "assign", ["fl", b], ["b", "T"], self.featured(op if op != "eq-obj" else "or", ["b0"]), []]]]
+        acts = [["activity", "a0", opt, ps, dur, ["conds"] + conds, ["effs"] + effs, ["constraints"] + cons]]
+        base = ["problem", "s", ["types"] + TYPES, ["objects"], ["fluents"] + fluents, ["init"], ["actions"], ["goals"], ["traj"], ["metrics"]]
+        return ["sp", base, ["xmetrics"], ["flags", "T", "F"], ["vars"] + bvars, ["conds"] + bconds, ["effs"] + beffs,
+                ["constraints"] + bcons, ["activities"] + acts]
+
+    # ---- multi-agent -----------------------------------------------------------------------
+    def ma(self, seen_only=True):
+        """seen_only: keep out of the positions MultiAgentProblem.kind never looks at (finding D-C10-MA)"""
+        r = self.r
+        pool = [n for n in POOL if seen_only is False or not any(t == "bool" or t[0] == "int" for t in POOL[n][2])]
+        env_names = r.sample(pool, r.choice([0, 1, 1, 2]))
+        plants = [(r.choice([o for o in FEATURE_OPS if o != "ifun"]), r.choice(["pre", "effcond", "public", "private", "goal", "dcond"]))
+                  for _ in range(r.choice([0, 1, 1, 2]))]
+        agents, used_types = [], set()
+        n_ag = r.choice([1, 2, 2, 3])
+        all_fl = list(env_names)
+        ag_fl = []
+        for i in range(n_ag):
+            mine = [r.choice(["b0", "b1"])] + r.sample([n for n in pool if n not in env_names], r.choice([0, 1, 2]))
+            mine = [n for j, n in enumerate(mine) if n not in mine[:j] and n not in env_names]
+            ag_fl.append(mine)
+        for i in range(n_ag):
+            fl = ag_fl[i] + env_names
+            first = i == 0
+            acts, dacts, pub, priv = [], [], [], []
+            pk = ("user",) if seen_only else ("user",) * 4 + ("bool", "bint", "uint", "real")
+            for j in range(r.choice([0, 1, 1, 2])):
+                ps = self.xparams("p", kinds=pk)
+                pre = [self.plain(fl, ps) for _ in range(r.choice([0, 1, 1]))]
+                effs = []
+                for _ in range(r.choice([1, 1, 2])):
+                    k = r.random()
+                    e = None
+                    if k < 0.5:
+                        e = self.eff(fl, ps)
+                    elif k < 0.65:
+                        e = self.eff(fl, ps, cond=self.plain(fl, ps))
+                    elif k < 0.75:
+                        e = self.eff(fl, ps, forall=True)
+                    elif k < 0.9:
+                        e = self.eff(fl, ps, kind=r.choice(["increase", "decrease"]))
+                    elif not seen_only:
+                        e = self.eff(fl, ps, dependent=True)
+                    if e:
+                        effs.append(e)
+                for op, pos in plants:
+                    if first and j == 0 and pos == "pre":
+                        pre.append(self.featured(op, fl, ps))
+                    if first and j == 0 and pos == "effcond":
+                        e = self.eff(fl, ps, cond=self.featured(op, fl, ps))
+                        if e:
+                            effs.append(e)
+                acts.append(["action", f"act{j}", ps, ["pre"] + pre, ["effs"] + effs])
+            if (not seen_only and r.random() < 0.4) or (first and any(pos == "dcond" for _, pos in plants) and not seen_only):
+                ps = self.xparams("p", kinds=pk)
+                nums = [n for n in fl if n in INTS + REALS]
+                lo = hi = ["i", str(r.choice([1, 2]))]
+                if nums and r.random() < 0.4:
+                    lo = hi = self.fexp(r.choice(nums), ps)
+                conds = [[self.interval("start"), self.plain(fl, ps)]]
+                for op, pos in plants:
+                    if pos == "dcond":
+                        conds.append([self.interval(r.choice(["start", "overall"])), self.featured(op, fl, ps)])
+                deffs = []
+                e = self.eff(fl, ps, kind=r.choice([None, None, "increase"]), cond=r.choice([None, self.plain(fl, ps)]))
+                if e:
+                    deffs.append([self.timing(r.choice(["start", "end"])), e])
+                dacts.append(["daction", "dact", ps, ["dur", lo, hi], ["conds"] + conds, ["effs"] + deffs, ["ceffs"], ["sim"]])
+            elif seen_only and r.random() < 0.1:
+                # an empty durative action: only CONTINUOUS_TIME can come from it
+                dacts.append(["daction", "dact", [], ["dur", ["i", "1"], ["i", "1"]], ["conds"], ["effs"], ["ceffs"], ["sim"]])
+            for op, pos in plants:
+                if first and pos == "public":
+                    pub.append(self.featured(op, fl))
+                if first and pos == "private":
+                    priv.append(self.featured(op, fl))
+            if r.random() < 0.2:
+                pub.append(self.plain(fl))
+            if r.random() < 0.2:
+                priv.append(self.plain(fl))
+            agents.append(["agent", f"ag{i}", ["fluents"] + [[POOL[n], self.const_for(POOL[n])] for n in ag_fl[i]], ["actions"] + acts,
+                           ["dactions"] + dacts, ["public"] + pub, ["private"] + priv])
+        goals = []
+        for i in range(n_ag):
+            if r.random() < 0.5:
+                bs = [n for n in ag_fl[i] if n in BOOLS]
+                if bs:
+                    goals.append(["dot", f"ag{i}", self.fexp(r.choice(bs))])
+        envb = [n for n in env_names if n in BOOLS]
+        if envb and r.random() < 0.5:
+            goals.append(self.fexp(r.choice(envb)))
+        for op, pos in plants:
+            if pos == "goal":
+                goals.append(self.featured(op, ag_fl[0] + env_names))
+        objects = ALL_OBJECTS if r.random() < 0.85 else r.choice([[], [["u1", "U"]], [["s1", "S"], ["u1", "U"]]])
+        payload = ["map", ["types"] + TYPES, ["objects"] + objects,
+                   ["env"] + [[POOL[n], self.const_for(POOL[n])] for n in env_names], ["agents"] + agents, ["goals"] + goals]
+        if seen_only:
+            # objects are a position the kind never scans: keep only objects whose type a fluent or a parameter has itself
+            seen = set()
+            refs = [POOL[n] for n in env_names] + [POOL[n] for fls in ag_fl for n in fls]
+            for ref in refs:
+                seen.update(t[1] for t in [ref[1]] + ref[2] if t[0] == "user")
+            for ag in agents:
+                for a in ag[3][1:] + ag[4][1:]:
+                    seen.update(pt[1] for _, pt in a[2] if pt[0] == "user")
+            payload[2] = ["objects"] + [o for o in objects if o[1] in seen]
+        return payload
+
+
 def sanitize(payload):
     """drop the elements the library's constructors reject (conflicting effects, ill-typed random pieces …), so that the
     payload describes exactly the problem that gets built; returns None when the base problem itself is rejected"""
@@ -1272,15 +2412,48 @@ def sanitize(payload):
     # try dropping single elements greedily
     for _ in range(40):
         done = False
-        for cand in _drops(p):
+        for cand in _all_drops(p):
             if ok(cand):
                 return cand
         # nothing single fixes it: drop the first droppable element and continue
-        nxt = next(_drops(p), None)
+        nxt = next(_all_drops(p), None)
         if nxt is None:
             return None
         p = nxt
     return None
+
+
+XDROP_HEADS = {"methods", "pre", "subtasks", "constraints", "sensing", "or", "oneof", "vars", "conds", "effs", "activities",
+               "agents", "actions", "dactions", "public", "private", "goals", "env", "xmetrics", "metrics", "init", "tasks"}
+
+
+def _tree_drops(x, heads):
+    """copies of the tree x with one child of one list whose head is in `heads` removed (outermost lists first)"""
+    if not isinstance(x, list):
+        return
+    if x and isinstance(x[0], str) and x[0] in heads:
+        for j in range(1, len(x)):
+            yield x[:j] + x[j + 1:]
+    for i, c in enumerate(x):
+        if isinstance(c, list):
+            for nc in _tree_drops(c, heads):
+                yield x[:i] + [nc] + x[i + 1:]
+
+
+def _all_drops(p):
+    """payloads with one element removed, for every payload form"""
+    if p[0] == "kp":
+        yield from _drops(p)
+    elif p[0] in ("hp", "cp"):
+        for i in range(2, len(p)):
+            for nc in _tree_drops(p[i], XDROP_HEADS):
+                yield p[:i] + [nc] + p[i + 1:]
+        for nk in _drops(p[1]):
+            yield [p[0], nk] + p[2:]
+    else:
+        for i in range(1, len(p)):
+            for nc in _tree_drops(p[i], XDROP_HEADS):
+                yield p[:i] + [nc] + p[i + 1:]
 
 
 def _drops(p):
@@ -1481,8 +2654,9 @@ def corpus_cases():
             continue
         try:
             pl = enc(pb)
-            pl = pl + [facts(build(pl))]
-            if sorted(build(pl).kind.features) != sorted(pb.kind.features):
+            rebuilt = build(pl)
+            pl = add_facts(pl, rebuilt)
+            if sorted(rebuilt.kind.features) != sorted(pb.kind.features):
                 raise NotFit("rebuilt problem has another kind")
             out.append(pl)
         except Exception:
@@ -1490,13 +2664,35 @@ def corpus_cases():
     return out
 
 
+def ext_case(g, rng, blind_ma=False):
+    """one raw payload of a problem subclass"""
+    k = rng.randrange(8)
+    if k == 0:
+        return g.hier_special() if rng.random() < 0.5 else g.hier()
+    if k == 1:
+        return g.hier()
+    if k == 2:
+        return g.cont_special() if rng.random() < 0.3 else g.cont()
+    if k == 3:
+        return g.cont()
+    if k in (4, 5):
+        return g.sched_special() if rng.random() < 0.3 else g.sched()
+    return g.ma(seen_only=not (blind_ma and rng.random() < 0.5))
+
+
 def cases(rng, tier):
-    n = 300 if tier == "quick" else 9000
+    n = 240 if tier == "quick" else 7000
+    nx = 200 if tier == "quick" else 5000
     for c in corpus_cases():
         yield c
-    g = KGen(rng)
-    for i in range(n):
-        raw = special(rng) if rng.random() < 0.2 else g.problem()
+    g = XGen(rng)
+    for i in range(n + nx):
+        if (i * nx) // (n + nx) != ((i + 1) * nx) // (n + nx):
+            raw = ext_case(g, rng)       # evenly interleaved with the `Problem` cases, so a budget cut keeps the mix
+        else:
+            raw = special(rng) if rng.random() < 0.2 else g.problem()
+        if raw is None:
+            continue
         p = sanitize(raw)
         if p is None:
             continue
@@ -1504,6 +2700,23 @@ def cases(rng, tier):
             yield with_facts(p)
         except Exception:
             continue   # a walker of another property failed on this problem: not a C10 case
+
+
+def search(rng, tier):
+    """wider failing-input search: also multi-agent problems inside the positions of the open finding (the caller
+    discards inputs that the finding explains)"""
+    g = XGen(rng)
+    while True:
+        raw = ext_case(g, rng, blind_ma=True) if rng.random() < 0.5 else (special(rng) if rng.random() < 0.2 else g.problem())
+        if raw is None:
+            continue
+        p = sanitize(raw)
+        if p is None:
+            continue
+        try:
+            yield with_facts(p)
+        except Exception:
+            continue
 
 
 def _err(e):
@@ -1553,11 +2766,70 @@ def oracle(payload):
     return None
 
 
+def ma_seen_features(pb):
+    """the statement's features that a multi-agent problem uses in the positions MultiAgentProblem.kind does look at:
+    types of fluents, fluent parameters and action parameters; numeric / object fluents and their bounds; the operators of
+    instantaneous preconditions, of the conditions of instantaneous effects, of the agents' goals and of the shared goals;
+    conditional / forall / increase / decrease effects of instantaneous actions.  Written from ma_problem.py's docstrings and
+    the property text, not from the model."""
+    out = set()
+
+    def use_type(t):
+        if t.is_user_type():
+            out.add("FLAT_TYPING")
+            if t.father is not None:
+                out.add("HIERARCHICAL_TYPING")
+
+    def cond(c):
+        for f, ops in (("NEGATIVE_CONDITIONS", {OK.NOT}), ("DISJUNCTIVE_CONDITIONS", {OK.OR, OK.IMPLIES}), ("EQUALITIES", {OK.EQUALS}),
+                       ("EXISTENTIAL_CONDITIONS", {OK.EXISTS}), ("UNIVERSAL_CONDITIONS", {OK.FORALL})):
+            if _has_op(c, ops):
+                out.add(f)
+    fluents = list(pb.ma_environment.fluents) + [f for ag in pb.agents for f in ag.fluents]
+    for f in fluents:
+        use_type(f.type)
+        if f.type.is_int_type() or f.type.is_real_type():
+            out.add("INT_FLUENTS" if f.type.is_int_type() else "REAL_FLUENTS")
+            if f.type.lower_bound is not None or f.type.upper_bound is not None:
+                out.add("BOUNDED_TYPES")
+        elif f.type.is_user_type():
+            out.add("OBJECT_FLUENTS")
+        for q in f.signature:
+            use_type(q.type)
+    for ag in pb.agents:
+        for g in list(ag.public_goals) + list(ag.private_goals):
+            cond(g)
+        for a in ag.actions:
+            for q in a.parameters:
+                use_type(q.type)
+            if isinstance(a, InstantaneousAction):
+                for c in a.preconditions:
+                    cond(c)
+                for e in a.effects:
+                    if not e.condition.is_true():
+                        out.add("CONDITIONAL_EFFECTS")
+                        cond(e.condition)
+                    if e.forall:
+                        out.add("FORALL_EFFECTS")
+                    if e.kind == EffectKind.INCREASE:
+                        out.add("INCREASE_EFFECTS")
+                    elif e.kind == EffectKind.DECREASE:
+                        out.add("DECREASE_EFFECTS")
+    for g in pb.goals:
+        cond(g)
+    return out
+
+
 def known_cause(payload):
-    if payload[0] == "extern":
-        from unified_planning.model.multi_agent import MultiAgentProblem
-        if isinstance(get_extern(payload[1]), MultiAgentProblem):
-            return "D-C10-MA"
+    """D-C10-MA: a multi-agent problem whose missing features are all used only in positions MultiAgentProblem.kind never looks
+    at (objects, forall-effect variables, parameter kinds, effect values, everything inside a durative action)"""
+    from unified_planning.model.multi_agent import MultiAgentProblem
+    pb = _problem_of(payload)
+    if not isinstance(pb, MultiAgentProblem):
+        return None
+    miss = set(missing_features(pb))
+    if miss and not (miss & ma_seen_features(pb)):
+        return "D-C10-MA"
     return None
 
 
@@ -1567,6 +2839,9 @@ def nontrivial(payload, ans):
     return ans[0] == "kind" and any(f in STATEMENT_FEATURES and f not in BASIC for f in ans[1:])
 
 
+CLASS_OF = {"kp": "Problem", "hp": "HierarchicalProblem", "cp": "ContingentProblem", "sp": "SchedulingProblem", "map": "MultiAgentProblem"}
+
+
 def stats(payload, ans):
     if payload[0] == "extern":
         return ["extern:" + type(get_extern(payload[1])).__name__]
@@ -1574,16 +2849,18 @@ def stats(payload, ans):
         return ["answer:" + sexp.dumps(ans)]
     t = ["feat:" + f for f in ans[1:]]
     t.append("n-features:%d" % (len(ans) - 1))
-    for s in payload[2:]:
+    t.append("class:" + CLASS_OF[payload[0]])
+    kp = payload[1] if payload[0] in ("hp", "cp") else payload
+    for s in kp[2:]:
         if s[0] in ("dactions", "processes", "events", "teffs", "tgoals") and len(s) > 1:
             t.append("has:" + s[0])
     return t
 
 
 def shrink(payload):
-    if payload[0] != "kp":
+    if payload[0] == "extern":
         return
-    for cand in _drops(payload):
+    for cand in _all_drops(strip_facts(payload)):
         try:
             yield with_facts(cand)
         except Exception:
@@ -1598,11 +2875,19 @@ MANIFEST = {
                    "positions, not over the traversal), f is in kindOf(problem); C10_engine_consequence lifts it to any supported "
                    "kind K (latest version) with kindOf <= K. kindOf mirrors _KindFactory statement by statement and is tied to the "
                    "code by exact set equality with problem.kind on generated problems with features planted in unusual positions "
-                   "and on the bundled corpora; hierarchical, scheduling, contingent and multi-agent problems are checked against "
-                   "the syntactic oracle only."),
-    "level_note": ("Trusted: Lean kernel; axioms propext, Classical.choice, Quot.sound at most; the statement of Spec/Uses; "
-                   "Driver + harness (wire format, generator). Not modelled: LinearChecker/Simplifier answers (supplied per case "
-                   "by the real code; theorems hold for every answer), subclasses' kind extensions (oracle only)."),
+                   "and on the bundled corpora. Props/C10Ext.lean: C10_complete_htn, C10_complete_contingent and "
+                   "C10_complete_scheduling prove the same for hierarchical, contingent and scheduling problems (kindOfH / kindOfC / "
+                   "kindOfS mirror the subclasses' kind extensions after three repairs; specifications UsesH / UsesC / UsesS in "
+                   "Spec/UsesExt.lean add the positions only those classes have); for multi-agent problems the code violates "
+                   "the property (open finding D-C10-MA): C10_complete_ma_full_refuted is a kernel-checked counterexample and "
+                   "C10_complete_ma_partial holds for every feature outside the decidable set maBlind(problem) that the unscanned "
+                   "positions contribute; C10_engine_consequence_ext lifts all four to supported kinds. All four models are compared "
+                   "with the real kind by exact set equality on generated problems of each class and the bundled examples."),
+    "level_note": ("Trusted: Lean kernel; axioms propext, Classical.choice, Quot.sound at most; the statements of Spec/Uses and "
+                   "Spec/UsesExt (incl. the readings of a subclass problem as a planning problem); Driver + harness (wire formats, "
+                   "generator). Not modelled: LinearChecker/Simplifier answers (supplied per case by the real code; theorems hold "
+                   "for every answer). The ordering classification of task networks (TASK_ORDER_*) is modelled and compared but no "
+                   "theorem is stated about it (not a feature of the statement)."),
     "technique": "Lean 4 proof over an executable model + model/code correspondence + syntactic oracle",
     "design_ref": "DESIGN.md §5 C10",
 }
